@@ -123,6 +123,9 @@ def bad_bookkeeping(rng, accounts, comms, canonical_names, alias_names, k=None):
     c2 = rng.choice([x for x in G.COMMS if x != c])
     head = "2024/03/%02d %s\n" % (rng.randint(1, 28), rng.choice(["bad", "買い物 🛒", "! (7) Café ☕"]))
     meta = "    ; note é\n" if rng.random() < 0.4 else ""
+    if rng.random() < 0.2:
+        # a LONG entry (17-40 lines): notes under the header push the offending posting far from the entry's first line
+        head += "".join("    ; %s %d\n" % (rng.choice(["receipt line", "品目", "Zeile é"]), j) for j in range(rng.randint(15, 38)))
     n = rng.randint(2, 900)
     k = rng.randrange(N_BOOK) if k is None else k
     if k == 0:
